@@ -65,12 +65,14 @@ func (sess *UserSession) Copy(numSet imap.NumSet, destName string) (*imap.CopyDa
 		}
 	}
 
+	// Don't hold the source mailbox lock while appending to the destination:
+	// two sessions copying in opposite directions would deadlock
 	var sourceUIDs, destUIDs imap.UIDSet
-	sess.mailbox.forEach(numSet, func(seqNum uint32, msg *message) {
-		appendData := dest.copyMsg(msg)
-		sourceUIDs.AddNum(msg.uid)
+	for _, pending := range sess.mailbox.snapshot(numSet) {
+		appendData := dest.appendBytes(pending.msg.buf, &pending.options)
+		sourceUIDs.AddNum(pending.msg.uid)
 		destUIDs.AddNum(appendData.UID)
-	})
+	}
 
 	return &imap.CopyData{
 		UIDValidity: dest.uidValidity,
@@ -94,17 +96,20 @@ func (sess *UserSession) Move(w *imapserver.MoveWriter, numSet imap.NumSet, dest
 		}
 	}
 
+	// Don't hold the source mailbox lock while appending to the destination:
+	// two sessions moving in opposite directions would deadlock
+	var sourceUIDs, destUIDs imap.UIDSet
+	expunged := make(map[*message]struct{})
+	for _, pending := range sess.mailbox.snapshot(numSet) {
+		appendData := dest.appendBytes(pending.msg.buf, &pending.options)
+		sourceUIDs.AddNum(pending.msg.uid)
+		destUIDs.AddNum(appendData.UID)
+		expunged[pending.msg] = struct{}{}
+	}
+
 	sess.mailbox.mutex.Lock()
 	defer sess.mailbox.mutex.Unlock()
 
-	var sourceUIDs, destUIDs imap.UIDSet
-	expunged := make(map[*message]struct{})
-	sess.mailbox.forEachLocked(numSet, func(seqNum uint32, msg *message) {
-		appendData := dest.copyMsg(msg)
-		sourceUIDs.AddNum(msg.uid)
-		destUIDs.AddNum(appendData.UID)
-		expunged[msg] = struct{}{}
-	})
 	seqNums := sess.mailbox.expungeLocked(expunged)
 
 	err = w.WriteCopyData(&imap.CopyData{
